@@ -388,9 +388,9 @@ var malformed = []string{
 func genHist(rng *core.Rand) string {
 	var steps []string
 	for n := 2 + rng.Intn(6); n > 0; n-- {
-		local := rng.Pick([]string{"a0", "a0", "a1", "d", "n"})
+		local := rng.Pick([]string{"a0", "a0", "a1", "t0", "t0", "t1", "d", "n", "b", "b"})
 		remote := "~"
-		if local != "n" && rng.Chance(3, 5) {
+		if local != "n" && local != "b" && rng.Chance(3, 5) {
 			var entries []string
 			for e := rng.Intn(3); e >= 0; e-- {
 				var keys []int
@@ -439,6 +439,11 @@ func (p *prop) Generate(rng *core.Rand, tier string, emit func(string)) {
 	emit("hist a0@a2=0/. a0@a3=1/. d@~")
 	emit("hist a0@~ a1@~ d@~ a0@~")
 	emit("hist n@a2=0/.")
+	// a load whose admin listener cannot be bound, then origins tightened / endpoint moved / disabled
+	emit("hist a0@~ b@~ t0@~")
+	emit("hist a0@~ b@~ a1@~")
+	emit("hist a0@a2=0/. b@~ d@~")
+	emit("hist t0@~ b@~ a0@~ b@~ b@~ t0@~ t1@~")
 	emit("hist a0@a2=0/. a0@a2=1/" + core.Hex("POST") + "|~ a0@a2=. n@~")
 	nh := 10
 	if tier == "thorough" {
